@@ -5,6 +5,8 @@ FENCE_NOTE = ("Trusts: x86-64 Linux page protection and the fault error code (wr
               "and 20-40 line C models). Accesses inside mapped memory that is no arena slot are not observed.")
 
 ENGINES = [
+    {"name": "queries", "path": "harness/queries.c", "serves_properties": ["C01", "C02", "C05", "C10"],
+     "kind_free_text": "exhaustive small-alphabet driver for the read-only query exports under the fence, with reference models"},
     {"name": "engine", "path": "harness/engine.c",
      "serves_properties": ["C01", "C02", "C03", "C04", "C05", "C06", "C07", "C08"],
      "kind_free_text": "table-driven call engine: guard-page arena + SIGSEGV fence + arena diff + counting probe handlers "
@@ -43,6 +45,12 @@ META = {
              text="For the 22 copy/concatenate/move exports, every offset of src relative to dest in [-(dmax+slen), +(dmax+slen)] for all small "
                   "dmax/slen/source lengths (and sizes across 0x20): disjoint operands must behave normally, written-meets-read must fail "
                   "with dest cleared, objects-overlap-only may do either, memmove family must equal a copy through a temporary; no fence event.",
+             note=FENCE_NOTE),
+ "C10": dict(technique="runtime monitoring: differential oracle over exhaustive small-alphabet operands for the 41 query exports",
+             engine="queries",
+             text="Every comparison/search/span/length/classification export is called on all strings over a small alphabet (both operands), "
+                  "with dmax/slen at, above and below the string lengths, and its answer compared with a reference computed on bounded "
+                  "private copies; operands must be unchanged. Exhaustive inside the stated bounds, nothing beyond them.",
              note=FENCE_NOTE),
  "C08": dict(technique="runtime monitoring: slack scan behind the reference-computed terminator after success",
              text="Default build: dest[len..dmax) all zero after success of the slack-nulling functions, len from the reference model; "
